@@ -53,6 +53,18 @@ int main(int argc, char **argv)
   printf("\nRESULT len=%zu T=%d cmode=%d hmode=%d enc=%d verify=%d dec=%d same=%d outlen=%zu cipherlen=%zu expected_cipherlen=%zu\n", len, T, cm, hm, enc, ver, dec, same, b.size(), clen, (size_t)(48 + 20 * T + 16 * (len / 16 + 1)));
   unlink("plain"); unlink("cipher"); unlink("back"); rmdir(dir);
   bool tampered = argc >= 8;
+  if (tampered && atol(argv[6]) == 9 && atoi(argv[7]) != 3 && atoi(argv[7]) != 255)
+  { // hash-mode byte: besides the battery's random value also the first out-of-range value and the largest one (a range check that is off by one
+    // lets exactly 3 through to a NULL hasher); a child that dies from a signal counts as a failure
+    for (int v = 3; v <= 255; v += 252)
+    {
+      if (chdir("/")) return 2;
+      char cmd[512]; snprintf(cmd, sizeof cmd, "'%s' roundtrip %s %s %s %s 9 %d", argv[0], argv[2], argv[3], argv[4], argv[5], v);
+      fflush(stdout);
+      int rc = system(cmd);
+      if (rc != 0) { printf("RESULT (same run with the hash-mode byte at offset 9 set to %d) failed or crashed (wait status %d)\n", v, rc); return 1; }
+    }
+  }
   if (tampered && atol(argv[6]) == 40)
   { // the battery's header offset 40 is a tag byte for SHA-256 and a reserved byte otherwise: also try 43 and 47, which lie behind the tag for every tag length
     // (reserved, not authenticated, read by nobody: verify and decrypt must still agree on such a file)
